@@ -243,10 +243,18 @@ Definition mon_C19_reload (x o : sx) : sx :=
 
 (* ---------- the "swap" family: requests while SetRules flips between two rule sets ---------- *)
 (* case = L [A "swap"; I n]; observation = L [I requests answered; I requests handled under two versions] *)
-Definition run_swap (x : sx) : sx := L [I (8 * sx_int (sx_nth 1 x)); I 0].
+(* observation = [requests under fast flipping; of which mixed; requests after a completed SetRules that were still
+   handled under the old version; requests in which a reload landed between two rule lookups; of which the later
+   lookup saw the new version] *)
+Definition run_swap (x : sx) : sx := L [I (8 * sx_int (sx_nth 1 x)); I 0; I 0; I 20; I 0].
 Definition mon_C19_swap (x o : sx) : sx :=
-  if Z.eqb (sx_int (sx_nth 1 o)) 0 then v_ok
-  else verdict false "a request was handled under two versions of the rules (flavours of one, destination of the other)".
+  if negb (Z.eqb (sx_int (sx_nth 1 o)) 0)
+  then verdict false "a request was handled under two versions of the rules (flavours of one, destination of the other)"
+  else if negb (Z.eqb (sx_int (sx_nth 4 o)) 0)
+  then verdict false "a reload that landed in the middle of a request changed how the rest of that request was routed"
+  else if negb (Z.eqb (sx_int (sx_nth 2 o)) 0)
+  then verdict false "a request that arrived after a reload had completed was still handled under the old rules"
+  else v_ok.
 
 (* what is compared of a reload run: the states, and for the size check whether each cache stayed within its limit *)
 Definition proj_reload (x o : sx) : sx :=
